@@ -101,6 +101,106 @@ pub fn history(out: &mut Out, rng: &mut Rng, da: u8, sa: u8, len: usize) {
     out.case(&format!("{} {} {}", da, sa, ops.join(" ")), &outs.join(" "), nontrivial);
 }
 
+/// Which shared slots of the driver context each handler touches (hook `verif_access`): the three tasks of a network
+/// run these handlers concurrently on clones of one context whose accessors lock one at a time, so a handler is atomic
+/// with respect to the stored command exactly when it touches that slot at most once.
+fn access_cases(out: &mut Out, rng: &mut Rng, n: usize) {
+    use glonax::runtime::verif_access;
+    for i in 0..n {
+        let (da, sa) = (0x4Au8, 0x27u8);
+        let hcu = HydraulicControlUnit::new("vcan0", da, sa);
+        let mut ctx = NetDriverContext::default();
+        if i % 3 != 0 {
+            let mut txq = vec![];
+            let _ = hcu.trigger(&mut ctx, &mut txq, &Object::Motion(fmt::rand_motion(rng)));
+        }
+        let _ = verif_access::take();
+        let kind = ["tick", "cmd-motion", "cmd-other", "rx-status", "rx-other"][i % 5];
+        let mut txq = vec![];
+        let mut rxq = vec![];
+        match kind {
+            "tick" => {
+                let _ = hcu.tick(&mut ctx, &mut txq);
+            }
+            "cmd-motion" => {
+                let _ = hcu.trigger(&mut ctx, &mut txq, &Object::Motion(fmt::rand_motion(rng)));
+            }
+            "cmd-other" => {
+                let (o, _) = fmt::rand_other_object(rng);
+                let _ = hcu.trigger(&mut ctx, &mut txq, &o);
+            }
+            "rx-status" => {
+                let f = FrameBuilder::new(Id::new((6 << 26) | (65_288 << 8) | da as u32)).copy_from_slice(&[*rng.pick(&[0x14u8, 0x16]), 0xFF, rng.below(2) as u8, 0xFF, 1, 0, 0, 0]).build();
+                let _ = hcu.try_recv(&mut ctx, &f, &mut rxq);
+            }
+            _ => {
+                let f = rand_rx_frame(rng, da, sa);
+                let _ = guarded(std::panic::AssertUnwindSafe(|| {
+                    let _ = hcu.try_recv(&mut ctx, &f, &mut rxq);
+                }));
+            }
+        }
+        let tr = verif_access::take();
+        out.case(&format!("acc {}", kind), &if tr.is_empty() { "-".to_string() } else { tr.join(",") }, true);
+        out.count(&format!("access trace of {}", kind));
+    }
+}
+
+/// Two real threads on clones of one context: one re-asserts (tick) as fast as it can, the other accepts commands that
+/// alternate between driving and stop-all and ends with stop-all. Whatever the interleaving, once both are done the
+/// next cycle must lock. Cannot raise a false alarm: the order of commands is that of the single command thread.
+fn stress(out: &mut Out, rounds: usize) {
+    use std::sync::atomic::{AtomicBool, AtomicU64, Ordering};
+    use std::sync::Arc;
+    let (da, sa) = (0x4Au8, 0x27u8);
+    let mut violations = 0usize;
+    let mut checks = 0u64;
+    let ctx = NetDriverContext::default();
+    let stop = Arc::new(AtomicBool::new(false));
+    let ticks = Arc::new(AtomicU64::new(0));
+    let (mut c1, st1, tk1) = (ctx.clone(), stop.clone(), ticks.clone());
+    let ticker = std::thread::spawn(move || {
+        let hcu = HydraulicControlUnit::new("vcan0", da, sa);
+        let mut txq = vec![];
+        while !st1.load(Ordering::Relaxed) {
+            txq.clear();
+            let _ = hcu.tick(&mut c1, &mut txq);
+            tk1.fetch_add(1, Ordering::Release);
+        }
+    });
+    let mut c2 = ctx.clone();
+    let hcu = HydraulicControlUnit::new("vcan0", da, sa);
+    let mut txq = vec![];
+    let is_lock = |f: &Vec<Frame>| f.len() == 1 && f[0].id().pgn_raw() == 45_824 && f[0].pdu()[3] == 0x00;
+    for r in 0..rounds {
+        txq.clear();
+        let _ = hcu.trigger(&mut c2, &mut txq, &Object::Motion(Motion::StraightDrive(1000 + (r % 100) as i16)));
+        // let the other thread get into its cycle with the driving command
+        let t0 = ticks.load(Ordering::Acquire);
+        while ticks.load(Ordering::Acquire) < t0 + 1 {
+            std::hint::spin_loop();
+        }
+        txq.clear();
+        let _ = hcu.trigger(&mut c2, &mut txq, &Object::Motion(Motion::StopAll));
+        // stop-all is now the latest command: after the cycles that were under way have finished, a cycle must lock
+        let t1 = ticks.load(Ordering::Acquire);
+        while ticks.load(Ordering::Acquire) < t1 + 2 {
+            std::hint::spin_loop();
+        }
+        let mut last = vec![];
+        let _ = hcu.tick(&mut c2, &mut last);
+        checks += 1;
+        if !is_lock(&last) {
+            violations += 1;
+        }
+    }
+    stop.store(true, Ordering::Relaxed);
+    let _ = ticker.join();
+    let _ = checks;
+    out.case(&format!("stress {}", rounds), &violations.to_string(), true);
+    out.count_n("two-thread stress: stop-all checked after concurrent cycles", rounds as u64);
+}
+
 pub fn run(out: &mut Out, tier: &str, rng: &mut Rng) {
     let (n, maxlen) = if tier == "thorough" { (50_000, 400) } else { (2_000, 40) };
     out.rule = format!("{} random histories of up to {} ops over {{tick, motion command (all variants, empty/duplicate/32-entry change sets), non-motion command of every other object kind, received frame (status/claim/ident from the unit, echoes, foreign, random)}} stepped on the real HydraulicControlUnit with one NetDriverContext; non-trivial = contains a tick after a motion command", n, maxlen);
@@ -113,4 +213,6 @@ pub fn run(out: &mut Out, tier: &str, rng: &mut Rng) {
         let len = 1 + rng.below(maxlen as u64) as usize;
         history(out, rng, da, sa, len);
     }
+    access_cases(out, rng, if tier == "thorough" { 2000 } else { 200 });
+    stress(out, if tier == "thorough" { 400_000 } else { 40_000 });
 }
